@@ -47,6 +47,13 @@ Definition leader_assign (ntopics : nat) (first : meta_answer) (per : list meta_
     else (LeaderOk, 1)       (* a single unknown topic: no assignment for it, not a failure *)
   end.
 
+(* the member assignment carried by a successful SyncGroup answer: per topic (index into the
+   configured topics) the partitions handed to this member.  It may be EMPTY (a stand-by member:
+   more consumers than partitions, or the topic does not exist yet), may leave configured topics
+   out, or span several topics.  nextGeneration does not branch on it: the heartbeat and the
+   watchers (one per CONFIGURED topic) are started whatever it is, so [step] ignores it. *)
+Definition assignment := list (nat * list nat).
+
 (* partitionWatcher tick: readPartitions result classes *)
 Inductive wres := WSame | WChanged | WKafkaErr | WDropped.
 
@@ -110,7 +117,7 @@ Record state := mkst {
 Inductive label :=
 (* run goroutine *)
 | LCoord (a : answer)                 (* cg.coordinator(): connect, FindCoordinator, connect *)
-| LJoin (a : join_answer) | LSync (a : answer) | LFetch (a : answer)
+| LJoin (a : join_answer) | LSync (a : answer) (asg : assignment) | LFetch (a : answer)
 | LStartHB | LStartWatch
 | LPublishAbort | LWaitClosed | LWaitGenDone
 | LGenCloseLock | LGenCloseJoined
@@ -248,7 +255,7 @@ Definition step (s : state) (l : label) : option state :=
             | JOk m _ => set_pc PSync (set_mid (Some m) s)
             end)
     | _ => None end
-  | LSync a =>
+  | LSync a _ =>
     match pc s, mid s with
     | PSync, Some m => let s := ev (HSyncReq m) s in
                        Some (match a with AOk => set_pc PFetch s | AErr e => fail_ng e s end)
@@ -518,10 +525,19 @@ Definition C15_holds (h : list event) : bool :=
    RebalanceInProgress, the re-join is lost (dropped connection): run must leave with id 1
    before it backs off (here Close arrives while the error is offered) *)
 Definition joinerr_scenario : list label :=
-  [LCoord AOk; LJoin (JOk 1 NotLeader); LSync AOk; LFetch AOk; LStartHB; LNextCall 0; LNextGen 0;
+  [LCoord AOk; LJoin (JOk 1 NotLeader); LSync AOk [(0, [0; 1])]; LFetch AOk; LStartHB; LNextCall 0; LNextGen 0;
    LHbTick 0 (AErr ERebalance); LFnHandler 0; LWaitGenDone; LGenCloseLock;
    LCoord AOk; LJoin (JErr EDropped); LLeaveCoord AOk; LLeaveReq AOk;
    LCloseCall 0; LOfferAbort; LCloseRet 0].
+(* a stand-by member: SyncGroup hands it NO partition; it heartbeats all the same, a heartbeat
+   answered RebalanceInProgress ends the generation, the member re-joins; Close during the second
+   generation's set-up leaves the group *)
+Definition standby_scenario : list label :=
+  [LCoord AOk; LJoin (JOk 1 NotLeader); LSync AOk []; LFetch AOk; LStartHB; LNextCall 0; LNextGen 0;
+   LHbTick 0 AOk; LHbTick 0 (AErr ERebalance); LFnHandler 0; LWaitGenDone; LGenCloseLock;
+   LCoord AOk; LJoin (JOk 1 NotLeader); LCloseCall 0; LSync AOk []; LFetch AOk; LStartHB;
+   LPublishAbort; LGenCloseLock; LFnSeeDone 1; LFnHandler 1; LGenCloseJoined;
+   LLeaveCoord AOk; LLeaveReq AOk; LCloseRet 0].
 Definition f5_scenario : list label :=
-  [LCoord AOk; LJoin (JOk 1 NotLeader); LSync (AErr ERebalance); LCloseCall 0; LOfferAbort;
+  [LCoord AOk; LJoin (JOk 1 NotLeader); LSync (AErr ERebalance) []; LCloseCall 0; LOfferAbort;
    LLeaveCoord AOk; LLeaveReq AOk; LCloseRet 0].
